@@ -2120,6 +2120,9 @@ func (self *LockDB) Lock(serverProtocol ServerProtocol, command *protocol.LockCo
 				currentLock.protocol = serverProtocol.GetProxy()
 				if command.Flag&protocol.LOCK_FLAG_FROM_AOF == 0 {
 					if command.TimeoutFlag&protocol.TIMEOUT_FLAG_REQUIRE_ACKED != 0 && currentLock.aofTime != 0xff {
+						// the hold awaits its acknowledgement from here on, as a new hold does from AddLock on:
+						// requests for its LockId are answered LOCK_ACK_WAITING until the update is answered
+						currentLock.ackCount = 0
 						err := lockManager.PushLockAof(currentLock, AOF_FLAG_UPDATED)
 						if err == nil {
 							currentLock.refCount++
@@ -2127,6 +2130,7 @@ func (self *LockDB) Lock(serverProtocol ServerProtocol, command *protocol.LockCo
 							_ = serverProtocol.FreeLockCommand(currentLockCommand)
 							return nil
 						}
+						currentLock.ackCount = 0xff
 					}
 					if currentLock.isAof {
 						_ = lockManager.PushLockAof(currentLock, AOF_FLAG_UPDATED)
